@@ -271,6 +271,7 @@ def rExc : Exc → String
   | .protocolError => "ProtocolError"
   | .transportLost => "TransportLost"
   | .typeError => "TypeError"
+  | .attributeError => "AttributeError"
   | .exception => "Exception"
   | .alreadyCalled => "AlreadyCalled"
   | .sendFailed => "SendFailed"
